@@ -308,6 +308,25 @@ class ModelCases(Suite):
                 for _ in range(2 * seeds):
                     w = G.obj(cid, rng, present={f["name"]}, extras="sibling")
                     out.append({"cls": cid, "mode": "sibling", "wire": w})
+            # directed: every declared member with a `str` position carries strings whose ends a tolerant
+            # validator would alter (whitespace, newline, tab, NBSP, U+2028), empty, look-alikes, non-BMP
+            k = 0
+            for f in S[cid]["fields"]:
+                if cid in ("Root",) and f["name"] == "uri":
+                    edge = ["file:///trail ", "file:///nl\n", "file://\u00a0"]
+                else:
+                    edge = schema_gen.EDGE_STRS
+                for r in range(2 if budget == "quick" else len(edge)):
+                    sval = edge[(k + r * 7) % len(edge)]
+                    v = G.with_str(f["ty"], sval)
+                    if v is None:
+                        break
+                    w = G.obj(cid, rng, present={f["name"]}, extras="none")
+                    if cid == "JSONRPCMessage" and G.wire(f) not in w:
+                        continue
+                    w[G.wire(f)] = v
+                    out.append({"cls": cid, "mode": "edge-str", "wire": w})
+                k += 1
             # aliased members populated; the attribute name of an aliased member as a member name
             for f in G.aliased(cid):
                 for _ in range(2 * seeds):
